@@ -175,6 +175,19 @@ impl ElementMap for TransformerContext {
     }
 
     fn get_element_bbox(&self, el: &SvgElement) -> Result<Option<BoundingBox>> {
+        self.clipped_element_bbox(el, &mut Vec::new())
+    }
+}
+
+impl TransformerContext {
+    /// Bounding box of an element, taking `use` targets and `clip-path` into account.
+    ///
+    /// `seen_clips` holds the clip-path references being resolved, to detect cycles.
+    fn clipped_element_bbox(
+        &self,
+        el: &SvgElement,
+        seen_clips: &mut Vec<ElRef>,
+    ) -> Result<Option<BoundingBox>> {
         let target_el = el.get_target_element(self)?;
         let mut el_bbox = target_el.bbox()?;
 
@@ -200,13 +213,21 @@ impl ElementMap for TransformerContext {
             let clip_id = extract_urlref(&clip_path).ok_or(SvgdxError::InvalidData(format!(
                 "Invalid clip-path attribute: {clip_path}"
             )))?;
+            if seen_clips.contains(&clip_id) {
+                return Err(SvgdxError::CircularRefError(format!(
+                    "clip-path {clip_id} already seen"
+                )));
+            }
             let clip_el = self
                 .get_element(&clip_id)
-                .ok_or(SvgdxError::ReferenceError(clip_id))?;
-            if let ("clipPath", Some(clip_bbox)) =
-                (clip_el.name.as_str(), self.get_element_bbox(clip_el)?)
-            {
-                el_bbox = bbox.intersect(&clip_bbox);
+                .ok_or(SvgdxError::ReferenceError(clip_id.clone()))?;
+            if clip_el.name == "clipPath" {
+                seen_clips.push(clip_id);
+                let clip_bbox = self.clipped_element_bbox(clip_el, seen_clips)?;
+                seen_clips.pop();
+                if let Some(clip_bbox) = clip_bbox {
+                    el_bbox = bbox.intersect(&clip_bbox);
+                }
             }
         }
 
